@@ -680,6 +680,10 @@ class Exec:
         if isinstance(op, (ast.In, ast.NotIn)):
             res = self.contains(r, l)
             return res if isinstance(op, ast.In) else ops.Not(res)
+        _SETS = (set, frozenset, type({}.keys()))
+        if isinstance(l, _SETS) and isinstance(r, _SETS):
+            # subset / superset tests of concrete sets (elements must be concrete to be hashable at all)
+            return {ast.Lt: operator.lt, ast.LtE: operator.le, ast.Gt: operator.gt, ast.GtE: operator.ge}[type(op)](set(l), set(r))
         if isinstance(l, str) or isinstance(r, str) or (is_z3(l) and z3.is_string(l)):
             if isinstance(l, str) and isinstance(r, str):
                 return {ast.Lt: operator.lt, ast.LtE: operator.le, ast.Gt: operator.gt, ast.GtE: operator.ge}[type(op)](l, r)
